@@ -39,6 +39,10 @@ def mask(h):
                 m(MH.KEY, h.KEY), h.alloc)
 
 
+def masked_fresh(ctx):
+    return mask(ctx.fresh_heap('loop'))
+
+
 def frozen(h):
     """h agrees with the model heap below MB"""
     r = z3.Int('r!frz')
@@ -125,7 +129,7 @@ def callable_model(ip, callee, args, kwargs, frame, node):
     assumed not to raise: they are called outside any handler, C05 host assumption)."""
     ctx = ip.ctx
     src = ast.unparse(node.func) if node is not None else ''
-    is_log = 'logFn' in src or 'log_fn' in src
+    is_log = 'logFn' in src or 'log_fn' in src or 'url_fn' in src     # called outside any handler: assumed total
     h0 = ctx.heap
     argt = [ctx.to_term(a) if not isinstance(a, Obj) else None for a in args]
     for a in args:
@@ -136,6 +140,9 @@ def callable_model(ip, callee, args, kwargs, frame, node):
     # host assumption: a host/library function leaves the options object it can reach well formed
     for o in ctx.ghost.get('options_terms', []):
         ctx.assume(z3.Implies(wf_options(h0, o), wf_options(ctx.heap, o)))
+        # C09 host assumption: a host function keeps the run options well formed and never lowers the counter
+        ctx.assume(z3.Implies(wf_run_options(h0, o), z3.And(wf_run_options(ctx.heap, o),
+                                                            count_of(ctx.heap, o) >= count_of(h0, o))))
     event = {'kind': 'callable', 'fn': callee, 'args': list(args), 'arg_terms': argt, 'src': src,
              'heap_before': h0, 'heap_after': ctx.heap}
     ctx.ghost.setdefault('events', []).append(event)
@@ -246,6 +253,9 @@ class EvaluateExpression(FnContract):
             obs.append(('result-wf', wf_value(h1, K.ctx.to_term(out.value))))
         obs.append(('C08.model-unmodified', frozen(h1)))
         obs.append(('options-still-wf', z3.And(wf_options(h1, K.term(1)), wf_locals(h1, K.term(2)))))
+        o = K.term(1)
+        obs.append(('C09.run-options-preserved',
+                    z3.Implies(wf_run_options(K.heap, o), z3.And(wf_run_options(h1, o), count_of(h1, o) >= count_of(K.heap, o)))))
         if K.ctx.ghost.get('K') is K:
             obs += eval_step_spec(self, K, out)
         return obs
@@ -262,7 +272,11 @@ class EvaluateExpression(FnContract):
                     ('tmp-elements-are-the-argument-values-in-order',
                      z3.ForAll([i], z3.Implies(z3.And(i >= 0, i < L.k), h.lget(V.lref(tmp), i) == ARGRES(i)))),
                     ('model-frozen', frozen(h)),
-                    ('options-wf', z3.And(wf_options(h, L.term('options')), wf_locals(h, L.term('locals_'))))]
+                    ('options-wf', z3.And(wf_options(h, L.term('options')), wf_locals(h, L.term('locals_')))),
+                    ('C09.run-options-preserved',
+                     z3.Implies(wf_run_options(L.heap0, L.term('options')),
+                                z3.And(wf_run_options(h, L.term('options')),
+                                       count_of(h, L.term('options')) >= count_of(L.heap0, L.term('options')))))]
 
         def body_args(L, events):
             ctx = L.ctx
@@ -279,7 +293,7 @@ class EvaluateExpression(FnContract):
             ctx.assume(ARGRES(L.k) == ctx.to_term(subs[0]['outcome'].value))
             return [('C03.each-argument-evaluated-exactly-once', ok)]
         return {('runtime.evaluate_expression', 'comp0'): LoopSpec(inv_args, heap='havoc', keeps_owned=True,
-                                                                   body_check=body_args)}
+                                                                   body_check=body_args, mk_heap=masked_fresh)}
 
     callable_model = staticmethod(callable_model)
 
@@ -690,3 +704,661 @@ def eval_step_spec(contract, K, out):
                               H2.dhas(V.dref(o), z3.StringVal('debug')), sp_.py_truthy(H2, dbg))
             obs.append(('C05.failure-logged-iff-debug', want_log if len(logs) == 1 else z3.And(len(logs) == 0, z3.Not(want_log))))
     return obs
+
+
+# ---------------------------------------------------------------------------------------------
+# statements (model.py schema), _execute_script_helper, _script_function, execute_script
+# ---------------------------------------------------------------------------------------------
+WFSTMTS = ufun('WFSTMTS', V, Bool)
+WFSTMT = ufun('WFSTMT', V, Bool)
+FIRST = ufun('FIRST_LABEL', V, Str, Int)     # first index of a label statement with that name in a list, or -1
+STMT_KEYS = ['expr', 'jump', 'return', 'label', 'function', 'include']
+
+
+def mget(d, k):
+    return MH.dget(V.dref(d), z3.StringVal(k))
+
+
+def mhas(d, k):
+    return MH.dhas(V.dref(d), z3.StringVal(k))
+
+
+def wfstmts_def(lst):
+    i = z3.Int('i!wfs')
+    r = V.lref(lst)
+    return z3.And(is_list(lst), in_model(r), MH.llen(r) >= 0,
+                  z3.ForAll([i], z3.Implies(z3.And(i >= 0, i < MH.llen(r)), WFSTMT(MH.lget(r, i)))))
+
+
+def wfstmt_def(st):
+    r = V.dref(st)
+    key = MH.dkey(r, 0)
+    ex, jp, rt, fn, inc = (mget(st, k) for k in ('expr', 'jump', 'return', 'function', 'include'))
+    i = z3.Int('i!wfst')
+    fargs = mget(fn, 'args')
+    incs = mget(inc, 'includes')
+    one = MH.lget(V.lref(incs), i)
+    return z3.And(
+        model_dict(st), single_key(r, key), one_of(key, STMT_KEYS),
+        z3.Implies(key == 'expr', z3.And(model_dict(ex), mhas(ex, 'expr'), WFEXPR(mget(ex, 'expr')),
+                                         z3.Implies(mhas(ex, 'name'), is_str(mget(ex, 'name'))))),
+        z3.Implies(key == 'jump', z3.And(model_dict(jp), mhas(jp, 'label'), is_str(mget(jp, 'label')),
+                                         z3.Implies(mhas(jp, 'expr'), WFEXPR(mget(jp, 'expr'))))),
+        z3.Implies(key == 'return', z3.And(model_dict(rt), z3.Implies(mhas(rt, 'expr'), WFEXPR(mget(rt, 'expr'))))),
+        z3.Implies(key == 'label', is_str(mget(st, 'label'))),
+        z3.Implies(key == 'function', z3.And(
+            model_dict(fn), mhas(fn, 'name'), is_str(mget(fn, 'name')), mhas(fn, 'statements'),
+            WFSTMTS(mget(fn, 'statements')),
+            z3.Implies(mhas(fn, 'lastArgArray'), is_bool(mget(fn, 'lastArgArray'))),
+            z3.Implies(mhas(fn, 'args'), z3.And(
+                is_list(fargs), in_model(V.lref(fargs)), MH.llen(V.lref(fargs)) >= 1,
+                z3.ForAll([i], z3.Implies(z3.And(i >= 0, i < MH.llen(V.lref(fargs))), is_str(MH.lget(V.lref(fargs), i)))))))),
+        z3.Implies(key == 'include', z3.And(
+            model_dict(inc), mhas(inc, 'includes'), is_list(incs), in_model(V.lref(incs)), MH.llen(V.lref(incs)) >= 1,
+            z3.ForAll([i], z3.Implies(z3.And(i >= 0, i < MH.llen(V.lref(incs))), z3.And(
+                model_dict(one), MH.dhas(V.dref(one), z3.StringVal('url')),
+                is_str(MH.dget(V.dref(one), z3.StringVal('url'))),
+                z3.Implies(MH.dhas(V.dref(one), z3.StringVal('system')),
+                           is_bool(MH.dget(V.dref(one), z3.StringVal('system'))))))))))
+
+
+def wf_run_options(h, o):
+    """options of a running script: an unfrozen dict with a globals dict and an integer statement counter; a
+    maxStatements entry, if present, is a number (host configuration)"""
+    r = V.dref(o)
+    g = h.dget(r, z3.StringVal('globals'))
+    cnt = h.dget(r, z3.StringVal('statementCount'))
+    mx = h.dget(r, z3.StringVal('maxStatements'))
+    return z3.And(is_dict(o), r >= MB, r < h.alloc,
+                  h.dhas(r, z3.StringVal('globals')), is_dict(g), V.dref(g) >= MB, V.dref(g) < h.alloc, V.dref(g) != r,
+                  h.dhas(r, z3.StringVal('statementCount')), is_int(cnt),
+                  z3.Implies(h.dhas(r, z3.StringVal('maxStatements')), sp_.is_number(mx)))
+
+
+def count_of(h, o):
+    return V.i(h.dget(V.dref(o), z3.StringVal('statementCount')))
+
+
+def max_of(h, o):
+    mx = h.dget(V.dref(o), z3.StringVal('maxStatements'))
+    return z3.If(h.dhas(V.dref(o), z3.StringVal('maxStatements')), sp_.num(mx), z3.RealVal(10 ** 9))
+
+
+class ParseScript(FnContract):
+    """parse_script as used by the include arm: returns a schema-valid model in fresh memory or raises
+    BareScriptParserError (C06/C07 are its own properties)."""
+    qual = 'parser.parse_script'
+    frame = 'havoc'
+
+    def havoc_heap(self, ip, h0):
+        fresh = ip.ctx.fresh_heap('parse')
+        ip.ctx.assume(fresh.alloc >= h0.alloc)
+        return ip.ctx.keep_owned(h0, mask(fresh))
+
+    def may_raise(self, K):
+        return [('BareScriptParserError', None)]
+
+    def post(self, K, out):
+        if out.kind == 'raise':
+            return []
+        v = K.ctx.to_term(out.value)
+        return [('fresh-script', z3.And(is_dict(v), V.dref(v) >= K.heap.alloc, V.dref(v) < K.heap_after.alloc))]
+
+
+class LintScript(FnContract):
+    qual = 'model.lint_script'
+    frame = 'havoc'
+
+    def havoc_heap(self, ip, h0):
+        fresh = ip.ctx.fresh_heap('lint')
+        ip.ctx.assume(fresh.alloc >= h0.alloc)
+        # lint is pure (C18): only fresh objects appear
+        r = z3.Int('r!lint')
+
+        def m(old, new):
+            return z3.Lambda([r], z3.If(r < h0.alloc, z3.Select(old, r), z3.Select(new, r)))
+        return Heap(m(h0.LEN, fresh.LEN), m(h0.ELS, fresh.ELS), m(h0.HAS, fresh.HAS), m(h0.VAL, fresh.VAL),
+                    m(h0.NK, fresh.NK), m(h0.KEY, fresh.KEY), fresh.alloc)
+
+    def post(self, K, out):
+        if out.kind == 'raise':
+            return []
+        v = K.ctx.to_term(out.value)
+        i = z3.Int('i!lw')
+        h1 = K.heap_after
+        return [('fresh-list-of-strings', z3.And(is_list(v), V.lref(v) >= K.heap.alloc, V.lref(v) < h1.alloc,
+                                                 h1.llen(V.lref(v)) >= 0,
+                                                 z3.ForAll([i], is_str(h1.lget(V.lref(v), i)))))]
+PARSED_STMTS = ufun('PARSED_STMTS', V, Bool)     # a statement list produced by parse_script (valid by C07)
+
+
+def _parse_post(self, K, out):
+    if out.kind == 'raise':
+        return []
+    v = K.ctx.to_term(out.value)
+    h1 = K.heap_after
+    st = h1.dget(V.dref(v), z3.StringVal('statements'))
+    return [('fresh-script', z3.And(is_dict(v), V.dref(v) >= K.heap.alloc, V.dref(v) >= MB, V.dref(v) < h1.alloc,
+                                    h1.dhas(V.dref(v), z3.StringVal('statements')), PARSED_STMTS(st), wf_value(h1, st)))]
+
+
+def _parse_make_exception(self, ip, cls):
+    ctx = ip.ctx
+    exc = make_exc(cls, [])
+    ln = ctx.fresh('pe_line_number', V)
+    ctx.assume(z3.Or(is_none(ln), is_int(ln)))
+    exc.f['fields'] = {'error': T(ctx.fresh('pe_error', Str)), 'line': T(ctx.fresh('pe_line', Str)),
+                       'column_number': I(ctx.fresh('pe_col', Int)), 'line_number': S(ln)}
+    return exc
+
+
+ParseScript.post = _parse_post
+ParseScript.make_exception = _parse_make_exception
+PARSE_SCRIPT = ParseScript()
+LINT_SCRIPT = LintScript()
+
+
+def host_callable_model(ip, callee, args, kwargs, frame, node):
+    return callable_model(ip, callee, args, kwargs, frame, node)
+
+
+class ExecuteScriptHelper(FnContract):
+    qual = 'runtime._execute_script_helper'
+    frame = 'havoc'
+    inline = ('value.value_boolean',)
+
+    def params(self, ip):
+        ctx = ip.ctx
+        base = ctx.heap
+        ctx.assume(z3.And(MB >= 0, MB <= base.alloc))
+        ctx.heap = mask(base)
+        stmts = ctx.fresh('statements', V)
+        options = ctx.fresh('options', V)
+        locals_ = ctx.fresh('locals_', V)
+        ctx.ghost['options_terms'] = [options]
+        return [S(stmts), S(options), S(locals_)]
+
+    def pre(self, K):
+        h = K.heap
+        return [('wf-statements', z3.Or(WFSTMTS(K.term(0)), PARSED_STMTS(K.term(0)))),
+                ('wf-options', wf_run_options(h, K.term(1))),
+                ('wf-locals', wf_locals(h, K.term(2))),
+                ('locals-is-a-separate-object',
+                 z3.Or(is_none(K.term(2)), z3.And(V.dref(K.term(2)) != V.dref(K.term(1)),
+                                                  V.dref(K.term(2)) != V.dref(h.dget(V.dref(K.term(1)), z3.StringVal('globals')))))),
+                ('model-frozen', frozen(h))]
+
+    def axioms(self, K):
+        s = K.term(0)
+        if K.ctx.ghost.get('K') is K:
+            # verification is for a model in the frozen region; parsed (included) scripts are the same contract
+            # instantiated with their own region (meta-argument, DESIGN.md C17)
+            return [('verified-for-frozen-models', WFSTMTS(s)), ('WFSTMTS-def', z3.Implies(WFSTMTS(s), wfstmts_def(s)))]
+        return []
+
+    def havoc_heap(self, ip, h0):
+        fresh = ip.ctx.fresh_heap('run')
+        ip.ctx.assume(fresh.alloc >= h0.alloc)
+        return ip.ctx.keep_owned(h0, mask(fresh))
+
+    def may_raise(self, K):
+        return [('BareScriptRuntimeError', None), ('BareScriptParserError', None)]
+
+    def post(self, K, out):
+        h0, h1 = K.heap, K.heap_after
+        o = K.term(1)
+        obs = []
+        if out.kind == 'raise':
+            ip = K.ip
+            ok = [ip.exc_isinstance(out.exc, 'BareScriptRuntimeError'), ip.exc_isinstance(out.exc, 'BareScriptParserError')]
+            if any(x is True for x in ok):
+                contained = True
+            else:
+                parts = [x for x in ok if x is not False]
+                contained = z3.Or(parts) if parts else False
+            obs.append(('C05.only-documented-exceptions-escape', contained))
+        else:
+            obs.append(('result-wf', wf_value(h1, K.ctx.to_term(out.value))))
+        obs.append(('C08.model-unmodified', frozen(h1)))
+        obs.append(('options-still-wf', z3.And(wf_run_options(h1, o), wf_locals(h1, K.term(2)))))
+        obs.append(('C09.count-never-decreases', count_of(h1, o) >= count_of(h0, o)))
+        return obs
+
+    callable_model = staticmethod(host_callable_model)
+
+    def cases(self):
+        """one verification job per statement kind (the split is made at the head of the statement loop)"""
+        return [(f'stmt-{k}', lambda K: []) for k in STMT_KEYS]
+
+
+EXECUTE_SCRIPT_HELPER = ExecuteScriptHelper()
+
+
+# -- url_file_relative by contract (its own resolution rules are verified in C17) -----------------
+URLREL = ufun('URLREL', Str, Str, Str)
+
+
+class UrlFileRelative(FnContract):
+    qual = 'options.url_file_relative'
+    frame = 'pure'
+    result = 'str'
+
+    def pre(self, K):
+        return [('strings', z3.And(is_str(K.term(0)), is_str(K.term(1))))]
+
+    def post(self, K, out):
+        if out.kind != 'return':
+            return []
+        return [('URLREL', out.value.t == URLREL(V.s(K.term(0)), V.s(K.term(1))))]
+
+
+URL_FILE_RELATIVE = UrlFileRelative()
+
+
+def _helper_loop_specs(self):
+    Q = 'runtime._execute_script_helper'
+
+    def common(L):
+        h = L.heap
+        K = L.ctx.ghost['K']
+        o = K.term(1)
+        return [('model-frozen', frozen(h)),
+                ('options-wf', z3.And(wf_run_options(h, o), wf_locals(h, K.term(2)))),
+                ('C09.count-never-decreases', count_of(h, o) >= count_of(K.heap, o))]
+
+    def cache_ok(L):
+        h = L.heap
+        K = L.ctx.ghost['K']
+        li = L.term('label_indexes')
+        stmts = K.term(0)
+        n = MH.llen(V.lref(stmts))
+        k = z3.String('k!cache')
+        r = V.dref(li)
+        f = FIRST(stmts, k)
+        return z3.And(z3.Or(is_none(li), z3.And(is_dict(li), r >= MB, r >= K.heap.alloc, r < h.alloc)),
+                      z3.Implies(is_dict(li),
+                                 z3.ForAll([k], z3.Implies(h.dhas(r, k), z3.And(h.dget(r, k) == VInt(f), f >= 0, f < n)))))
+
+    def inv_main(L):
+        K = L.ctx.ghost['K']
+        n = MH.llen(V.lref(K.term(0)))
+        t = L.term('ix_statement')
+        return [('pc-in-range', z3.And(is_int(t), V.i(t) >= 0, V.i(t) <= n)),
+                ('C08.label-cache-holds-first-matches', cache_ok(L))] + common(L)
+
+    def lem_main(L):
+        K = L.ctx.ghost['K']
+        stmts = K.term(0)
+        ix = L.int('ix_statement')
+        st = MH.lget(V.lref(stmts), ix)
+        return [z3.Implies(z3.And(ix >= 0, ix < MH.llen(V.lref(stmts))), z3.And(WFSTMT(st), wfstmt_def(st)))]
+
+    def inv_inc(L):
+        return common(L) + [('C08.label-cache-holds-first-matches', cache_ok(L))]
+
+    def stmt_cases(L, label):
+        if not label or not label.startswith('stmt-'):
+            return None
+        K = L.ctx.ghost['K']
+        t = L.term('ix_statement')
+        st = MH.lget(V.lref(K.term(0)), V.i(t))
+        key = MH.dkey(V.dref(st), 0)
+        return key == z3.StringVal(label[5:]), one_of(key, STMT_KEYS)
+
+    def owned_cache(L):
+        li = L.term('label_indexes')
+        return [('d', z3.simplify(V.dref(li)), is_dict(li))]
+
+    return {(Q, 0): LoopSpec(inv_main, heap='havoc', lemmas=lem_main, keeps_owned=True, mk_heap=masked_fresh,
+                             case_facts=stmt_cases, owned=owned_cache,
+                             header='ix_statement < statements_length', body_check=helper_body_check),
+            (Q, 1): LoopSpec(inv_inc, heap='havoc', keeps_owned=True, body_check=include_body_check, mk_heap=masked_fresh,
+                             owned=owned_cache,
+                             header="statement['include']['includes']"),
+            (Q, 2): LoopSpec(inv_inc, heap='havoc', keeps_owned=True, header='warnings', mk_heap=masked_fresh,
+                             owned=owned_cache)}
+
+
+def helper_body_check(L, events):
+    """C08/C09 obligations of one iteration of the statement loop (ghost events of the iteration)"""
+    ctx = L.ctx
+    K = ctx.ghost['K']
+    o = K.term(1)
+    begin = None
+    for e in reversed(ctx.ghost['events']):
+        if e.get('kind') == 'loop-body-begin' and e['loop'].endswith('_execute_script_helper.loop0'):
+            begin = e
+            break
+    obs = []
+    h_begin = begin['heap']
+    head = count_of(h_begin, o)
+    exceeded = z3.And(max_of(h_begin, o) > 0, z3.ToReal(head + 1) > max_of(h_begin, o))
+    first = next((e for e in events if e.get('kind') in ('call', 'callable')), None)
+    h_first = first['heap_before'] if first is not None else L.heap
+    obs.append(('C09.counter-incremented-once-at-the-head', count_of(h_first, o) == head + 1))
+    obs.append(('C09.statement-runs-only-within-the-budget', z3.Not(exceeded)))
+    # every nested evaluation/run/call gets the run's own options object (so its statements are counted)
+    same = []
+    for e in events:
+        if e.get('kind') == 'call' and e['callee'] in ('runtime.evaluate_expression', 'runtime._execute_script_helper'):
+            oa = ctx.to_term(e['args'][1])
+            carried = z3.And(count_of(e['heap_before'], oa) == count_of(e['heap_before'], o),
+                             count_of(L.heap, o) >= count_of(e['heap_after'], oa))
+            same.append(z3.Or(oa == o, carried))
+    obs.append(('C09.nested-runs-are-counted', z3.And(same) if same else z3.BoolVal(True)))
+    return obs
+
+
+def include_body_check(L, events):
+    """C17 obligations of one include: resolve, fetch once, parse, run nested in global scope with a re-based urlFn"""
+    ctx = L.ctx
+    K = ctx.ghost['K']
+    o = K.term(1)
+    obs = []
+    runs = [e for e in events if e.get('kind') == 'call' and e['callee'] == 'runtime._execute_script_helper']
+    parses = [e for e in events if e.get('kind') == 'call' and e['callee'] == 'parser.parse_script']
+    fetches = [e for e in events if e.get('kind') == 'callable' and 'fetch_fn' in e['src']]
+    urlcalls = [e for e in events if e.get('kind') == 'callable' and 'url_fn' in e['src']]
+    obs.append(('C17.fetched-parsed-and-run-exactly-once', z3.BoolVal(len(runs) == 1 and len(parses) == 1 and len(fetches) == 1
+                                                                      and len(urlcalls) <= 1)))
+    if len(runs) == 1 and len(fetches) == 1:
+        run = runs[0]
+        hb = run['heap_before']
+        io = ctx.to_term(run['args'][1])
+        inc = L.term('include')
+        url0 = V.s(MH.dget(V.dref(inc), z3.StringVal('url')))
+        h_head = next(e for e in reversed(ctx.ghost['events']) if e.get('kind') == 'loop-body-begin'
+                      and e['loop'].endswith('loop1'))['heap']
+        prefix = h_head.dget(V.dref(o), z3.StringVal('systemPrefix'))
+        is_system = z3.And(MH.dhas(V.dref(inc), z3.StringVal('system')),
+                           sp_.py_truthy(MH, MH.dget(V.dref(inc), z3.StringVal('system'))),
+                           h_head.dhas(V.dref(o), z3.StringVal('systemPrefix')), z3.Not(is_none(prefix)))
+        if urlcalls:
+            via_fn = ctx.to_term(urlcalls[0]['outcome'].value) if urlcalls[0]['outcome'].kind == 'return' else VNone
+            resolved = via_fn
+            obs.append(('C17.urlFn-used-for-plain-includes', z3.And(z3.Not(is_system), urlcalls[0]['arg_terms'][0] == VStr(url0))))
+        else:
+            resolved = z3.If(is_system, VStr(URLREL(V.s(prefix), url0)), VStr(url0))
+            fn = h_head.dget(V.dref(o), z3.StringVal('urlFn'))
+            obs.append(('C17.system-includes-resolve-against-the-system-prefix',
+                        z3.Or(is_system, z3.Not(h_head.dhas(V.dref(o), z3.StringVal('urlFn'))), is_none(fn))))
+        req = fetches[0]['arg_terms'][0]
+        hf = fetches[0]['heap_before']
+        obs.append(('C17.fetch-receives-the-resolved-location',
+                    z3.And(is_dict(req), hf.dhas(V.dref(req), z3.StringVal('url')),
+                           hf.dget(V.dref(req), z3.StringVal('url')) == resolved)))
+        obs.append(('C17.included-script-runs-in-global-scope', ctx.to_term(run['args'][2]) == VNone))
+        obs.append(('C17.nested-run-gets-a-copy-with-rebased-urlFn',
+                    z3.And(io != o, is_dict(io), hb.dhas(V.dref(io), z3.StringVal('urlFn')),
+                           is_func(hb.dget(V.dref(io), z3.StringVal('urlFn'))),
+                           hb.dget(V.dref(io), z3.StringVal('globals')) == hb.dget(V.dref(o), z3.StringVal('globals')))))
+        # the includer's own urlFn entry is not written by this arm (only host calls may touch options)
+        obs.append(('C17.parse-receives-the-fetched-text',
+                    ctx.to_term(parses[0]['args'][0]) == ctx.to_term(fetches[0]['outcome'].value)
+                    if fetches[0]['outcome'].kind == 'return' else z3.BoolVal(False)))
+    return obs
+
+
+ExecuteScriptHelper.loop_specs = property(_helper_loop_specs)
+
+
+def _first_label_hook(ip, gen, p, n, found):
+    """ties the first-match idiom of the jump arm to the spec function FIRST (definitional: the least index is
+    unique)"""
+    frame = gen.f['frame']
+    if not frame.qual.endswith('_execute_script_helper'):
+        return
+    ctx = ip.ctx
+    stmts = ctx.to_term(frame.env['statements'])
+    label = ctx.to_term(frame.env['jump_label'])
+    ctx.assume(z3.If(found, p == FIRST(stmts, V.s(label)), FIRST(stmts, V.s(label)) == -1))
+
+
+def _first_label_elem_hook(ip, gen, j):
+    """the generic element of the statement list is a well-formed statement (elements beyond the length are never
+    observed, so constraining them is harmless)"""
+    frame = gen.f['frame']
+    if not frame.qual.endswith('_execute_script_helper'):
+        return
+    ctx = ip.ctx
+    stmts = ctx.to_term(frame.env['statements'])
+    st = MH.lget(V.lref(stmts), j)
+    r = V.dref(st)
+    key = MH.dkey(r, 0)
+    ctx.assume(z3.And(model_dict(st), MH.dnk(r) == 1, MH.dhas(r, key), one_of(key, STMT_KEYS),
+                      MH.dhas(r, z3.StringVal('label')) == (key == z3.StringVal('label')),
+                      z3.Implies(key == 'label', is_str(MH.dget(r, z3.StringVal('label'))))))
+
+
+def parser_error_ctor(ip, exc, args, kwargs):
+    """BareScriptParserError(error, line, column_number=1, line_number=None, prefix=None) by contract: the attributes
+    are the arguments (the message formatting of __init__ is verified on its own, C06)"""
+    names = ['error', 'line', 'column_number', 'line_number', 'prefix']
+    vals = {'column_number': C(1), 'line_number': C(None), 'prefix': C(None)}
+    for n, a in zip(names, args):
+        vals[n] = a
+    vals.update(kwargs)
+    for n in ('error', 'line', 'column_number', 'line_number'):
+        exc.f['fields'][n] = vals[n]
+
+
+ExecuteScriptHelper.hooks = {'first_match': _first_label_hook, 'first_match_elem': _first_label_elem_hook,
+                             'class:BareScriptParserError': parser_error_ctor}
+EXECUTE_SCRIPT_HELPER.callee_contracts = {
+    EVALUATE_EXPRESSION.qual: EVALUATE_EXPRESSION, EXECUTE_SCRIPT_HELPER.qual: EXECUTE_SCRIPT_HELPER,
+    PARSE_SCRIPT.qual: PARSE_SCRIPT, LINT_SCRIPT.qual: LINT_SCRIPT, URL_FILE_RELATIVE.qual: URL_FILE_RELATIVE}
+
+
+# ---------------------------------------------------------------------------------------------
+# _script_function (C04: parameter binding) and execute_script (C04: library injection, C09: counter reset)
+# ---------------------------------------------------------------------------------------------
+LASTPOS = ufun('LASTPOS', V, Str, Int, Int)     # greatest j < k with params[j] == name, or -1
+
+
+def lastpos_step(fargs, name, k):
+    """definition of LASTPOS, unfolded at k"""
+    pk = V.s(MH.lget(V.lref(fargs), k))
+    return LASTPOS(fargs, name, k + 1) == z3.If(pk == name, k, LASTPOS(fargs, name, k))
+
+
+def wf_function_def(fn):
+    i = z3.Int('i!wff')
+    fargs = mget(fn, 'args')
+    return z3.And(
+        model_dict(fn), mhas(fn, 'name'), is_str(mget(fn, 'name')), mhas(fn, 'statements'), WFSTMTS(mget(fn, 'statements')),
+        z3.Implies(mhas(fn, 'lastArgArray'), is_bool(mget(fn, 'lastArgArray'))),
+        z3.Implies(mhas(fn, 'args'), z3.And(
+            is_list(fargs), in_model(V.lref(fargs)), MH.llen(V.lref(fargs)) >= 1,
+            z3.ForAll([i], z3.Implies(z3.And(i >= 0, i < MH.llen(V.lref(fargs))), is_str(MH.lget(V.lref(fargs), i)))))))
+
+
+def binding_spec(h, fn, args, loc, k, bound):
+    """the locals dict `loc` binds the first k parameters of fn positionally to `args` (heap h):
+    the last occurrence of a name wins, missing arguments are null, a trailing array parameter collects the rest"""
+    fargs = mget(fn, 'args')
+    n = MH.llen(V.lref(fargs))
+    na = h.llen(V.lref(args))
+    last_is_array = z3.And(mhas(fn, 'lastArgArray'), V.b(mget(fn, 'lastArgArray')))
+    name = z3.String('nm!bind')
+    i = z3.Int('i!bind')
+    j = LASTPOS(fargs, name, k)
+    v = h.dget(V.dref(loc), name)
+    is_rest = z3.And(last_is_array, j == n - 1)
+    arr_ok = z3.And(is_list(v), V.lref(v) >= bound, V.lref(v) < h.alloc,
+                    h.llen(V.lref(v)) == z3.If(na > j, na - j, 0),
+                    z3.ForAll([i], z3.Implies(z3.And(i >= 0, i < na - j), h.lget(V.lref(v), i) == h.lget(V.lref(args), j + i))))
+    val_ok = z3.If(is_rest, arr_ok, v == z3.If(j < na, h.lget(V.lref(args), j), VNone))
+    return z3.ForAll([name], z3.And(h.dhas(V.dref(loc), name) == (j >= 0), z3.Implies(j >= 0, val_ok)))
+
+
+class ScriptFunction(FnContract):
+    qual = 'runtime._script_function'
+    frame = 'havoc'
+
+    def params(self, ip):
+        ctx = ip.ctx
+        base = ctx.heap
+        ctx.assume(z3.And(MB >= 0, MB <= base.alloc))
+        ctx.heap = mask(base)
+        fn = ctx.fresh('function', V)
+        args = ctx.fresh('args', V)
+        options = ctx.fresh('options', V)
+        ctx.ghost['options_terms'] = [options]
+        return [S(fn), S(args), S(options)]
+
+    def pre(self, K):
+        h = K.heap
+        a = K.term(1)
+        return [('wf-function', wf_function_def(K.term(0))),
+                ('args-is-a-list', z3.And(is_list(a), V.lref(a) >= MB, V.lref(a) < h.alloc, h.llen(V.lref(a)) >= 0)),
+                ('wf-options', wf_run_options(h, K.term(2))),
+                ('model-frozen', frozen(h))]
+
+    def axioms(self, K):
+        fargs = mget(K.term(0), 'args')
+        name = z3.String('nm!lp0')
+        return [('LASTPOS-base', z3.ForAll([name], LASTPOS(fargs, name, 0) == -1))]
+
+    def havoc_heap(self, ip, h0):
+        fresh = ip.ctx.fresh_heap('sfn')
+        ip.ctx.assume(fresh.alloc >= h0.alloc)
+        return ip.ctx.keep_owned(h0, mask(fresh))
+
+    def may_raise(self, K):
+        return [('BareScriptRuntimeError', None), ('BareScriptParserError', None)]
+
+    def post(self, K, out):
+        h0, h1 = K.heap, K.heap_after
+        o = K.term(2)
+        obs = []
+        if out.kind == 'raise':
+            ip = K.ip
+            ok = [ip.exc_isinstance(out.exc, 'BareScriptRuntimeError'), ip.exc_isinstance(out.exc, 'BareScriptParserError')]
+            contained = True if any(x is True for x in ok) else (z3.Or([x for x in ok if x is not False]) if any(x is not False for x in ok) else False)
+            obs.append(('C05.only-documented-exceptions-escape', contained))
+        else:
+            obs.append(('result-wf', wf_value(h1, K.ctx.to_term(out.value))))
+        obs.append(('C08.model-unmodified', frozen(h1)))
+        obs.append(('options-still-wf', wf_run_options(h1, o)))
+        obs.append(('C09.count-never-decreases', count_of(h1, o) >= count_of(h0, o)))
+        if K.ctx.ghost.get('K') is K:
+            ctx = K.ctx
+            runs = [e for e in ctx.ghost.get('events', []) if e.get('kind') == 'call' and e['callee'] == 'runtime._execute_script_helper']
+            if len(runs) != 1:
+                obs.append(('C04.body-run-exactly-once', False))
+            else:
+                run = runs[0]
+                hb = run['heap_before']
+                fn = K.term(0)
+                loc = ctx.to_term(run['args'][2])
+                fargs = mget(fn, 'args')
+                n = z3.If(mhas(fn, 'args'), MH.llen(V.lref(fargs)), 0)
+                name = z3.String('nm!nb')
+                obs.append(('C04.body-runs-with-fresh-locals-and-the-callers-options',
+                            z3.And(ctx.to_term(run['args'][0]) == mget(fn, 'statements'), ctx.to_term(run['args'][1]) == o,
+                                   is_dict(loc), V.dref(loc) >= h0.alloc)))
+                obs.append(('C04.parameters-bound-positionally',
+                            z3.If(mhas(fn, 'args'), binding_spec(hb, fn, K.term(1), loc, n, h0.alloc),
+                                  z3.ForAll([name], z3.Not(hb.dhas(V.dref(loc), name))))))
+                obs.append(('C04.arguments-and-globals-untouched-by-binding',
+                            sp_.frame_same(h0, hb, h0.alloc)))
+        return obs
+
+    @property
+    def loop_specs(self):
+        def inv(L):
+            K = L.ctx.ghost['K']
+            h = L.heap
+            fn = K.term(0)
+            loc = L.term('func_locals')
+            return [('locals-fresh', z3.And(is_dict(loc), V.dref(loc) >= K.heap.alloc, V.dref(loc) < h.alloc)),
+                    ('index-range', z3.And(L.k >= 0, L.k <= MH.llen(V.lref(mget(fn, 'args'))))),
+                    ('C04.bound-so-far', binding_spec(h, fn, K.term(1), loc, L.k, K.heap.alloc)),
+                    ('frame', sp_.frame_same(K.heap, h, K.heap.alloc)),
+                    ('model-frozen', frozen(h)), ('options-wf', wf_run_options(h, K.term(2)))]
+
+        def lem(L):
+            K = L.ctx.ghost['K']
+            fargs = mget(K.term(0), 'args')
+            name = z3.String('nm!lps')
+            # instance of the precondition's quantifier at the loop index + the definition of LASTPOS at k
+            return [z3.Implies(z3.And(L.k >= 0, L.k < MH.llen(V.lref(fargs))), is_str(MH.lget(V.lref(fargs), L.k))),
+                    z3.ForAll([name], lastpos_step(fargs, name, L.k))]
+        return {('runtime._script_function', 0): LoopSpec(inv, heap='havoc', lemmas=lem, mk_heap=masked_fresh,
+                                                          header='range(func_args_length)')}
+
+    callable_model = staticmethod(host_callable_model)
+
+
+SCRIPT_FUNCTION = ScriptFunction()
+SCRIPT_FUNCTION.callee_contracts = {EXECUTE_SCRIPT_HELPER.qual: EXECUTE_SCRIPT_HELPER}
+
+
+class ExecuteScript(FnContract):
+    qual = 'runtime.execute_script'
+    frame = 'havoc'
+
+    def params(self, ip):
+        ctx = ip.ctx
+        base = ctx.heap
+        ctx.assume(z3.And(MB >= 0, MB <= base.alloc))
+        ctx.heap = mask(base)
+        script = ctx.fresh('script', V)
+        options = ctx.fresh('options', V)
+        ctx.ghost['options_terms'] = [options]
+        return [S(script), S(options)]
+
+    def pre(self, K):
+        h = K.heap
+        sc, o = K.term(0), K.term(1)
+        mx = h.dget(V.dref(o), z3.StringVal('maxStatements'))
+        return [('wf-script', z3.And(model_dict(sc), mhas(sc, 'statements'), WFSTMTS(mget(sc, 'statements')))),
+                ('wf-options', z3.And(wf_options(h, o),
+                                      z3.Implies(z3.And(is_dict(o), h.dhas(V.dref(o), z3.StringVal('maxStatements'))),
+                                                 sp_.is_number(mx)))),
+                ('model-frozen', frozen(h))]
+
+    def may_raise(self, K):
+        return [('BareScriptRuntimeError', None), ('BareScriptParserError', None)]
+
+    def post(self, K, out):
+        obs = []
+        if out.kind == 'raise':
+            ip = K.ip
+            ok = [ip.exc_isinstance(out.exc, 'BareScriptRuntimeError'), ip.exc_isinstance(out.exc, 'BareScriptParserError')]
+            contained = True if any(x is True for x in ok) else (z3.Or([x for x in ok if x is not False]) if any(x is not False for x in ok) else False)
+            obs.append(('C05.only-documented-exceptions-escape', contained))
+        obs.append(('C08.model-unmodified', frozen(K.heap_after)))
+        if K.ctx.ghost.get('K') is K:
+            ctx = K.ctx
+            h0 = K.heap
+            runs = [e for e in ctx.ghost.get('events', []) if e.get('kind') == 'call' and e['callee'] == 'runtime._execute_script_helper']
+            if len(runs) != 1:
+                return obs + [('C08.script-run-exactly-once', False)]
+            run = runs[0]
+            hb = run['heap_before']
+            o_in = K.term(1)
+            o = ctx.to_term(run['args'][1])
+            g = hb.dget(V.dref(o), z3.StringVal('globals'))
+            g_in = h0.dget(V.dref(o_in), z3.StringVal('globals'))
+            supplied = z3.And(is_dict(o_in), h0.dhas(V.dref(o_in), z3.StringVal('globals')), is_dict(g_in))
+            k = z3.String('k!inj')
+            has_lib = ufun('TABLE_HAS_library.SCRIPT_FUNCTIONS', Str, Bool)
+            lib = ufun('TABLE_library.SCRIPT_FUNCTIONS', Str, V)
+            was = z3.And(supplied, h0.dhas(V.dref(g_in), k))
+            obs.append(('C04.statements-run-at-global-scope-with-these-options',
+                        z3.And(ctx.to_term(run['args'][0]) == mget(K.term(0), 'statements'), ctx.to_term(run['args'][2]) == VNone,
+                               z3.Implies(is_dict(o_in), o == o_in))))
+            obs.append(('C04.caller-supplied-globals-object-is-used', z3.Implies(supplied, g == g_in)))
+            obs.append(('C04.library-added-without-overwriting-caller-names',
+                        z3.ForAll([k], z3.If(was, z3.And(hb.dhas(V.dref(g), k), hb.dget(V.dref(g), k) == h0.dget(V.dref(g_in), k)),
+                                             z3.And(hb.dhas(V.dref(g), k) == has_lib(k),
+                                                    z3.Implies(has_lib(k), hb.dget(V.dref(g), k) == lib(k)))))))
+            obs.append(('C09.counter-reset-at-entry', hb.dget(V.dref(o), z3.StringVal('statementCount')) == VInt(0)))
+        return obs
+
+    callable_model = staticmethod(host_callable_model)
+
+
+EXECUTE_SCRIPT = ExecuteScript()
+EXECUTE_SCRIPT.callee_contracts = {EXECUTE_SCRIPT_HELPER.qual: EXECUTE_SCRIPT_HELPER}
